@@ -285,6 +285,9 @@ Definition xls_container (wb : lwb) (ch : xchoice) : Cfb.container :=
      Cfb.c_streams := xc_pre ch ++ (wb_stream_name ch, xls_stream_write wb ch) :: xc_post ch;
      Cfb.c_parents := xc_parents ch |}.
 
+(* the workbook stream as an object of the container (storages first, then the streams) *)
+Definition wb_object (ch : xchoice) : nat := (length (xc_storages ch) + length (xc_pre ch))%nat.
+
 (* the whole file *)
 Definition xls_file_write (wb : lwb) (ch : xchoice) : bytes :=
   Cfb.cfb_write (xls_container wb ch) (xc_layout ch).
@@ -331,7 +334,11 @@ Definition xfile_legalb (wb : lwb) (ch : xchoice) : bool :=
   && Cfb.list_eqb (map sc_pos (xc_sheets ch))
                   (positions (BiffSst.len (xls_globals_write wb ch)) cs)
   && (BiffSst.len (xls_stream_write wb ch) <=? 4294967295)
-  (* the container *)
+  (* the container; its links: none written (root child id NOSTREAM: the reader scans the flat
+     directory array) or a tree over the hierarchy, of any shape, with the workbook stream in the
+     ROOT storage (Cfb::find follows the child / sibling ids since the fix of audit finding G8) *)
+  && (Cfb.flat_rootb cont (xc_layout ch)
+      || (Cfb.linked_treeb cont (xc_layout ch) && (Cfb.parent_of cont (wb_object ch) =? 0)))
   && Cfb.valid_layoutb cont (xc_layout ch) && Cfb.names_uniqueb cont
   && negb (Cfb.mem_list VBA_CUR (Cfb.all_names cont))
   && (negb (xc_book ch) || negb (Cfb.mem_list Cfb.WORKBOOK (Cfb.all_names cont))).
